@@ -485,6 +485,7 @@ class TSet(T):
 NamesSort = z3.DeclareSort('Names')
 nset = Z.func('nset', NamesSort, Z.SetSort(Z.Str))
 nfirst = Z.func('nfirst', NamesSort, Z.Str)
+nnth = Z.func('nnth', NamesSort, Z.Int, Z.Str)     # k-th name (k >= 1; the 0-th is nfirst)
 
 
 def names_of(items, ctx):
